@@ -1,4 +1,6 @@
 import Props.Defs
+import Proofs.ChainDP
+import Mathlib.Tactic.Positivity
 namespace Coma.Proofs
 open Coma Coma.Spec
 
@@ -6,52 +8,191 @@ theorem dp_indices {α} (score : α → Rat) (join : α → α → Option Rat) (
     (dpChain score join pre).1 ≠ [] ∧
     (dpChain score join pre).1.Pairwise (· < ·) ∧
     ∀ i ∈ (dpChain score join pre).1, i < pre.length := by
-  sorry
+  obtain ⟨b, path, x, c, p, hrow, hdp, hbl, hlt, hpw, htot, hmax⟩ := dpChain_spec score join pre h
+  rw [hdp]
+  refine ⟨by simp, ?_, ?_⟩
+  · rw [List.pairwise_append]
+    refine ⟨hpw, by simp, ?_⟩
+    intro a ha b' hb'
+    simp at hb'; subst hb'; exact hlt a ha
+  · intro i hi
+    simp at hi
+    rcases hi with hi | rfl
+    · exact Nat.lt_trans (hlt i hi) hbl
+    · exact hbl
 
 theorem dp_sublist {α} (score : α → Rat) (join : α → α → Option Rat) (pre : List α) :
     ((dpChain score join pre).1.filterMap (fun i => pre[i]?)).Sublist pre := by
-  sorry
+  by_cases h : pre = []
+  · subst h
+    simp
+  · exact filterMap_idx_sublist pre _ (dp_indices score join pre h).2.1
 
 theorem dp_total {α} (score : α → Rat) (join : α → α → Option Rat) (pre : List α) (h : pre ≠ []) :
     chainTotal score join ((dpChain score join pre).1.filterMap (fun i => pre[i]?)) = some (dpChain score join pre).2 := by
-  sorry
+  obtain ⟨b, path, x, c, p, hrow, hdp, hbl, hlt, hpw, htot, hmax⟩ := dpChain_spec score join pre h
+  rw [hdp]
+  exact htot
 
 theorem dp_optimal {α} (score : α → Rat) (join : α → α → Option Rat) (pre : List α)
     (c : List α) (hc : c.Sublist pre) (hne : c ≠ []) :
     leOpt (chainTotal score join c) (dpChain score join pre).2 := by
-  sorry
+  have h : pre ≠ [] := by
+    rintro rfl
+    exact hne (List.sublist_nil.mp hc)
+  obtain ⟨b, path, x, c0, p, hrow, hdp, hbl, hlt, hpw, htot, hmax⟩ := dpChain_spec score join pre h
+  rw [hdp]
+  have hg : Good score join (dpTable score join [] pre) := dpTable_good score join pre [] (good_nil score join)
+  have hitems : (dpTable score join [] pre).map (·.1) = pre := by
+    simpa using dpTable_items score join pre []
+  rcases List.eq_nil_or_concat c with rfl | ⟨c', y, rfl⟩
+  · exact absurd rfl hne
+  · rw [List.concat_eq_append] at hc ⊢
+    obtain ⟨k, hk, hsub⟩ := sublist_snoc_split hc
+    rw [← hitems, List.getElem?_map] at hk
+    cases hd : (dpTable score join [] pre)[k]? with
+    | none => simp [hd] at hk
+    | some row =>
+      obtain ⟨y', cj, pj⟩ := row
+      simp [hd] at hk
+      subst hk
+      have hB := (hg k y' cj pj hd).2 c' (by rw [hitems]; exact hsub)
+      refine leOpt_mono hB (hmax cj ?_)
+      rw [List.mem_map]
+      exact ⟨(y', cj, pj), List.mem_of_getElem? hd, rfl⟩
 
 theorem dp_no_inf_join {α} (score : α → Rat) (join : α → α → Option Rat) (pre : List α) (h : pre ≠ []) :
     Consec (fun a b => join a b ≠ none) ((dpChain score join pre).1.filterMap (fun i => pre[i]?)) := by
-  sorry
+  exact chainTotal_some_consec score join _ _ (dp_total score join pre h)
+
+theorem iabs_nonneg (x : Int) : 0 ≤ iabs x := by
+  unfold iabs; split <;> omega
+
+theorem iabs_zero : iabs 0 = 0 := by decide
+
+theorem calcScore_nonneg (variant rd qd : Int) : 0 ≤ calcScore variant rd qd := by
+  unfold calcScore
+  simp only
+  split
+  · apply div_nonneg
+    · exact_mod_cast Int.add_nonneg (mul_self_nonneg _) (mul_self_nonneg _)
+    · exact_mod_cast le_trans (by decide : (0 : Int) ≤ 1) (le_max_right _ _)
+  · apply div_nonneg
+    · exact_mod_cast Int.add_nonneg (mul_self_nonneg _) (mul_self_nonneg _)
+    · exact_mod_cast le_trans (by decide : (0 : Int) ≤ 1) (le_max_right _ _)
+
+theorem calcScore_zero (variant : Int) : calcScore variant 0 0 = 0 := by
+  unfold calcScore
+  simp [iabs_zero]
 
 theorem joinScore_nonpos (mult : Rat) (variant : Int) (prev cur : Ends) (hm : 0 ≤ mult) (v : Rat)
     (h : joinScore mult variant prev cur = some v) : v ≤ 0 := by
-  sorry
+  unfold joinScore at h
+  simp only at h
+  generalize (if cur.reverse then prev.e.q.pos - cur.s.q.pos else cur.s.q.pos - prev.e.q.pos) = qd at h
+  split at h
+  · cases h
+  · cases h
+    have := calcScore_nonneg variant (cur.s.r.pos - prev.e.r.pos) qd
+    have h2 := mul_nonneg hm this
+    linarith
 
 theorem joinScore_zero (mult : Rat) (variant : Int) (prev cur : Ends)
     (hr : cur.s.r.pos = prev.e.r.pos)
     (hq : (if cur.reverse then prev.e.q.pos - cur.s.q.pos else cur.s.q.pos - prev.e.q.pos) = 0)
     (hl : 0 ≤ min (cur.e.r.pos - cur.s.r.pos) (prev.e.r.pos - prev.s.r.pos)) :
     joinScore mult variant prev cur = some 0 := by
-  sorry
+  unfold joinScore
+  simp only
+  have hrd : cur.s.r.pos - prev.e.r.pos = 0 := by omega
+  rw [hq, hrd]
+  have h1 := iabs_nonneg (cur.e.q.pos - cur.s.q.pos)
+  have h2 := iabs_nonneg (prev.e.q.pos - prev.s.q.pos)
+  rw [if_neg (by omega)]
+  simp [calcScore_zero]
 
 theorem joinScore_some_overlap (mult : Rat) (variant : Int) (prev cur : Ends) (v : Rat)
     (h : joinScore mult variant prev cur = some v) :
     0 ≤ min (cur.e.r.pos - cur.s.r.pos) (prev.e.r.pos - prev.s.r.pos) + 2 * (cur.s.r.pos - prev.e.r.pos) ∧
     0 ≤ min (iabs (cur.e.q.pos - cur.s.q.pos)) (iabs (prev.e.q.pos - prev.s.q.pos)) +
         2 * (if cur.reverse then prev.e.q.pos - cur.s.q.pos else cur.s.q.pos - prev.e.q.pos) := by
-  sorry
+  unfold joinScore at h
+  simp only at h
+  generalize (if cur.reverse then prev.e.q.pos - cur.s.q.pos else cur.s.q.pos - prev.e.q.pos) = qd at h ⊢
+  split at h
+  · cases h
+  · rename_i hlt
+    generalize iabs (cur.e.q.pos - cur.s.q.pos) = a1 at hlt ⊢
+    generalize iabs (prev.e.q.pos - prev.s.q.pos) = a2 at hlt ⊢
+    omega
+
+theorem ends?_eq_none_iff (s : Seg) : s.ends? = none ↔ s.pairs = [] := by
+  unfold Seg.ends?
+  split
+  · rename_i h; simp [h]
+  · rename_i h; simp [h]
+
+theorem withEnds?_eq_none_iff : ∀ (l : List Seg), withEnds? l = none ↔ ∃ s ∈ l, s.pairs = []
+  | [] => by simp [withEnds?]
+  | s :: ss => by
+    have ih := withEnds?_eq_none_iff ss
+    have he := ends?_eq_none_iff s
+    unfold withEnds?
+    cases h1 : s.ends? with
+    | none =>
+      simp only [List.mem_cons, exists_eq_or_imp]
+      exact ⟨fun _ => Or.inl (he.mp h1), fun _ => trivial⟩
+    | some e =>
+      cases h2 : withEnds? ss with
+      | none =>
+        simp only [List.mem_cons, exists_eq_or_imp]
+        exact ⟨fun _ => Or.inr (ih.mp h2), fun _ => trivial⟩
+      | some rest =>
+        simp only [List.mem_cons, exists_eq_or_imp]
+        constructor
+        · intro h; cases h
+        · rintro (h | h)
+          · rw [he.mpr h] at h1; cases h1
+          · rw [ih.mpr h] at h2; cases h2
 
 theorem chainSegs_shape (P : Params) (C : ChainCfg) (segs out : List Seg)
     (h : chainSegs P C segs = some out) :
     ∃ ne : List (Seg × Ends), withEnds? (segs.filter (fun s => !s.isEmpty)) = some ne ∧
       ∃ sel : List (Seg × Ends), sel.Sublist (isort (fun (x : Seg × Ends) => x.2.key) ne) ∧
         out = sel.map (·.1) ++ segs.filter Seg.isEmpty := by
-  sorry
+  unfold chainSegs at h
+  simp only at h
+  cases hw : withEnds? (segs.filter (fun s => !s.isEmpty)) with
+  | none => rw [hw] at h; cases h
+  | some ne =>
+    rw [hw] at h
+    simp only at h
+    refine ⟨ne, rfl, ?_⟩
+    split at h
+    · cases h
+      exact ⟨[], List.nil_sublist _, by simp⟩
+    · cases h
+      refine ⟨_, dp_sublist (fun (x : Seg × Ends) => ((x.1.score P : Int) : Rat))
+        (fun a b => joinScore C.mult C.variant a.2 b.2)
+        (isort (fun (x : Seg × Ends) => x.2.key) ne), ?_⟩
+      rw [List.map_filterMap]
 
 theorem chainSegs_none_iff (P : Params) (C : ChainCfg) (segs : List Seg) :
     chainSegs P C segs = none ↔ ∃ s ∈ segs, s.isEmpty = false ∧ s.pairs = [] := by
-  sorry
+  have key : chainSegs P C segs = none ↔ withEnds? (segs.filter (fun s => !s.isEmpty)) = none := by
+    unfold chainSegs
+    simp only
+    cases hw : withEnds? (segs.filter (fun s => !s.isEmpty)) with
+    | none => simp
+    | some ne =>
+      simp only
+      split <;> simp
+  rw [key, withEnds?_eq_none_iff]
+  constructor
+  · rintro ⟨s, hs, hp⟩
+    rw [List.mem_filter] at hs
+    exact ⟨s, hs.1, by simpa using hs.2, hp⟩
+  · rintro ⟨s, hs, he, hp⟩
+    exact ⟨s, by rw [List.mem_filter]; exact ⟨hs, by simp [he]⟩, hp⟩
 
 end Coma.Proofs
